@@ -62,6 +62,7 @@ CONSTANTS Scopes,     \* scope names in play; "" (the global scope) must be amon
           MaxExp, Ns, MaxCalls,
           RetGetters,           \* the ways a return value is read in the enumerated domain: records [g, od, d]
           LateExpect, Toggles,  \* model-checking switches: expectations after the first call / disable-enable explored
+          Flags,                \* strictOrder / ignoreOtherCalls explored
           MaxInst,              \* enumeration bound: installations (comparators + copiers) per scope; 0 = none explored
           DKeys, DVals          \* data store keys and values explored ({} = the data store is not explored)
 
@@ -424,8 +425,8 @@ Next ==
        \/ \E s \in Scopes, k \in ONames, ty \in OTypes : OutParam(s, k, ty)
        \/ \E s \in Scopes, o \in Objs : OnObject(s, o)
        \/ \E s \in Scopes, x \in RetGetters : ms[s].live /\ ms[s].cur.phase \in {"open", "ignored"} /\ ReturnValue(s, x.g, x.od, x.d, "support")
-       \/ \E s \in Scopes : StrictOrder(s) /\ ~Touched(s)[s].strict /\ NExp(s) = 0 /\ NCalls = 0
-       \/ IgnoreOtherCalls /\ ~ms[Global].ignoreOthers /\ NCalls = 0
+       \/ \E s \in Scopes : Flags /\ StrictOrder(s) /\ ~Touched(s)[s].strict /\ NExp(s) = 0 /\ NCalls = 0
+       \/ Flags /\ IgnoreOtherCalls /\ ~ms[Global].ignoreOthers /\ NCalls = 0
        \/ Toggles /\ Disable /\ ms[Global].enabled
        \/ Toggles /\ Enable /\ ~ms[Global].enabled
        \/ AnyOpen /\ Left
